@@ -1,5 +1,7 @@
 SPECIFICATION Spec
 CONSTANTS
+  UseStaticCfg = FALSE
+  StaticCfg <- NoCfg
   Dev = {"RefundTruncatedDust"}
 CONSTRAINT Record
 POSTCONDITION Report
